@@ -190,7 +190,12 @@ pub mod fl {
     }
     impl core::ops::AddAssign for Fl {
         #[verifier::external_body]
-        fn add_assign(&mut self, rhs: Fl) ensures *final(self) == mk(xr_add(val(*old(self)), val(rhs))) { self.v += rhs.v }
+        fn add_assign(&mut self, rhs: Fl) { self.v += rhs.v }
+    }
+    impl AddAssignSpecImpl for Fl {
+        open spec fn obeys_add_assign_spec() -> bool { true }
+        open spec fn add_assign_req(&self, rhs: Fl) -> bool { true }
+        open spec fn add_assign_spec(&self, rhs: Fl) -> &Fl { &mk(xr_add(val(*self), val(rhs))) }
     }
 
     // ---- conversions (num_traits::NumCast / FromPrimitive / ToPrimitive on f32/f64) -----
